@@ -12,6 +12,15 @@ for pid in ids:
     if pid not in props.PROPS:
         continue
     P = props.PROPS[pid]
+    # how this property's model is tied to /repo's text on every run: proved translations vs frozen-text pins
+    pcs = [os.path.basename(x)[:-2] for x in P.get("pinchecks", [])]
+    gens = sorted({x for x in pcs if x.endswith("Gen")})
+    pins = sorted({x for x in pcs if not x.endswith("Gen") and x != "RegexExamples"})
+    srcs = [os.path.basename(x)[:-2] for x in P.get("coq_extra", []) if x.endswith("src.v") or x.endswith("Gen.v") or x.endswith("SrcStep.v") or x.endswith("SrcAsk.v")]
+    tie = (" SOURCE TIE (every run): Gallina regenerated from /repo by tools/rs2coq.py and PROVED equal to the model in "
+           + (", ".join(gens) if gens else "(none)") + "; frozen-text / literal pins " + (", ".join(pins) if pins else "(none)")
+           + ((". Headline theorems restated about the translated source: " + ", ".join(srcs)) if srcs else "")
+           + "; plus the differential run of the extracted model against the real crate.")
     checks.append({
         "property_id": pid,
         "quick_cmd": "tools/check %s --tier quick" % pid,
@@ -19,9 +28,9 @@ for pid in ids:
         "evidence_file": "/verif/evidence/%s.json" % pid,
         "replay_cmd_template": "tools/check %s --replay {path}" % pid,
         "engine": "coq-model+correspondence",
-        "level_claimed": {"category": "proof", "text": P["level_text"], "design_ref": "5." + pid},
+        "level_claimed": {"category": "proof", "text": P["level_text"] + tie, "design_ref": "5." + pid},
         "level_note": P["level_note"],
-        "technique": P.get("technique", "machine-checked proof in Coq 8.16 over a hand-written executable model, tied to the code by a differential correspondence run and source pins on every check"),
+        "technique": P.get("technique", "machine-checked proof in Coq 8.16 over an executable Gallina model; the model is tied to /repo on every run by (a) a Rust->Gallina translator (tools/rs2coq*.py) whose output is regenerated from the source and proved equal to the model function by function, (b) frozen-text pins for the code not yet translated, (c) a differential correspondence run of the extracted model against the real crate"),
     })
 na = [{"property_id": pid, "reason": props.NOT_CLAIMED.get(pid, "check not built yet; nothing is claimed for this property")}
       for pid in ids if pid not in props.PROPS]
@@ -39,7 +48,7 @@ m = {
         "name": "coq-model+correspondence",
         "path": "coq/ extracted/ harness/ gen/ tools/",
         "serves_properties": [c["property_id"] for c in checks],
-        "kind_free_text": "Coq 8.16 theorems over a hand-written executable Gallina model; extracted OCaml model runner vs Rust harness driving the real crate on identical generated cases; source pins regenerated from /repo each run",
+        "kind_free_text": "Coq 8.16 theorems over an executable Gallina model; Gallina regenerated from /repo's Rust text each run (tools/rs2coq*.py) and proved equal to the model; extracted OCaml model runner vs Rust harness driving the real crate on identical generated cases; source pins regenerated from /repo each run",
     }],
     "checks": checks,
     "not_applicable": na,
